@@ -12,8 +12,12 @@ Legs
                  identities in document order, count(A|B) = count(A) = count(B), answers equal
                  under a different probe order and for repeated probes, only nodes of the context
                  node's document.
+  class nsctx    (both legs) declarations whose match / use expand a QName when evaluated (format-number,
+                 function-available, element-available, system-property) with the prefix bound for the
+                 xsl:key element only (on it or on its module) and bound differently / not at all where
+                 key() is called; generated from a random stream of its own after the other classes.
 """
-import os, json
+import os, json, random
 from vlib import core, xsltrun
 
 LEVEL = "proof"
@@ -219,7 +223,8 @@ def gen_decl(r, names):
 
 
 def key_elem(d):
-    return '<xsl:key name="%s" match="%s" use="%s"/>' % (d["name"][0], xa(d["match"]), xa(d["use"]))
+    own = (" " + NS_KEY_DECL) if d.get("nsown") else ""
+    return '<xsl:key%s name="%s" match="%s" use="%s"/>' % (own, d["name"][0], xa(d["match"]), xa(d["use"]))
 
 
 def xa(s):
@@ -232,6 +237,64 @@ ARG_NODESET = ["//@x", "//@y", "//b", "//a/@y", "//text()", ".//@x", ".//text()"
 ARG_STRING = ["'1'", "'2'", "'3'", "'v'", "'w'", "'1 2'", "'x1'", "''", "'ab'", "'k'", "'a'", "'b'", "'1-2'", "'-'", "'true'",
               "'false'", "'NaN'", "'0'", "'r'", "1", "2", "0", "1+1", "true()", "string(//@x)", "name()", "concat('1',' 2')",
               "'12'", "'1v'", "'zz'"]
+
+
+# ---------------------------------------------------------------------------------------------
+# class 'nsctx': the namespace context of a declaration is the one of ITS xsl:key element (XSLT 1.0 2.4 / XPath 1.0
+# section 1: the namespace declarations in scope for the element the expression occurs on), also for the QNames that
+# an expression only expands when it is evaluated (the format name of format-number(), the arguments of
+# function-available() / element-available() / system-property()).  The prefixes p, f and e are bound for the xsl:key
+# element (on the element itself or on the xsl:stylesheet element of its module) and bound to ANOTHER namespace, or
+# not bound at all, where key() is called.  q, ff and xsl mean the same in every module: the brute force, which is
+# evaluated where key() is called, uses those.
+NS_KEY_DECL = 'xmlns:p="urn:c15" xmlns:f="http://exslt.org/math" xmlns:e="http://www.w3.org/1999/XSL/Transform"'
+NS_OTHER_DECL = 'xmlns:p="urn:c15x" xmlns:f="urn:c15x" xmlns:e="urn:c15x"'
+NS_COMMON = 'xmlns:q="urn:c15" xmlns:ff="http://exslt.org/math"'
+NS_USE = ["format-number(-1 - count(*),'0','p:df')", "format-number(-1 - string-length(@x),'00','p:df')",
+          "concat(@x,function-available('f:abs'))", "concat(name(),element-available('e:if'))",
+          "concat(@y,system-property('e:version'))", "string(function-available('f:max'))",
+          "concat(format-number(-2,'0','p:df'),@x,element-available('e:nosuch'))"]
+NS_MATCH = [("a[function-available('f:abs')]", "//a[function-available('f:abs')]"),
+            ("*[element-available('e:if')][@x]", "//*[element-available('e:if')][@x]"),
+            ("b[format-number(-1,'0','p:df')='M1']", "//b[format-number(-1,'0','p:df')='M1']"),
+            ("@x[system-property('e:version')=1]", "//@x[system-property('e:version')=1]"),
+            ("*[function-available('f:abs')]/@y", "//*[function-available('f:abs')]/@y")]
+NS_CALLERS = ["template", "module-other", "module-unbound"]
+
+
+def ns_rename(x):
+    """the same expression for a place where p, f, e are not what they are for the xsl:key element"""
+    return x.replace("'p:", "'q:").replace("'f:", "'ff:").replace("'e:", "'xsl:")
+
+
+def gen_ns_case(ctx, cid):
+    r = ctx.rng
+    c = gen_case(ctx, cid, "plain")
+    c["cls"] = "nsctx"
+    decls = c["decls"]
+    forced = r.randrange(len(decls))
+    for k, d in enumerate(decls):
+        if k == forced or r.random() < 0.5:
+            d["use"], d["type"] = r.choice(NS_USE), "S"
+            d["bfuse"] = d["use"]
+        if r.random() < 0.3:
+            d["match"], d["bf"] = r.choice(NS_MATCH)
+    caller = r.choice(NS_CALLERS)
+    # module-level bindings of p, f, e per sheet: "key" (those of the declarations), "other" or "unbound"
+    mods = ["key" if caller == "template" else caller.split("-")[1]]
+    mods += [r.choice(["key", "key", "other", "unbound"]) for _ in range(2)]
+    for d in decls:
+        d["nsown"] = mods[d["sheet"]] != "key" or r.random() < 0.4
+        d["bfuse"], d["bf"] = ns_rename(d["bfuse"]), ns_rename(d["bf"])
+    c["ns"] = {"caller": caller, "mods": mods}
+    return c
+
+
+def nsdecl_of(c, sheet):
+    """the namespace declarations on the xsl:stylesheet element of module `sheet` (0 = main)"""
+    if not c.get("ns"):
+        return NSDECL
+    return NS_COMMON + {"key": " " + NS_KEY_DECL, "other": " " + NS_OTHER_DECL, "unbound": ""}[c["ns"]["mods"][sheet]]
 
 
 def gen_case(ctx, cid, cls):
@@ -369,6 +432,10 @@ def gen_probes(ctx, c, tables):
 
 def doc_vars(c):
     s = '<xsl:decimal-format name="p:df" NaN="nan"/><xsl:variable name="d0" select="/"/>'
+    if c.get("ns"):
+        # {urn:c15}df and {urn:c15x}df differ in the minus sign
+        s = ('<xsl:decimal-format name="q:df" NaN="nan" minus-sign="M"/><xsl:decimal-format xmlns:o="urn:c15x" name="o:df" minus-sign="X"/>'
+             '<xsl:variable name="d0" select="/"/>')
     for i in range(1, len(c["docs"])):
         s += '<xsl:variable name="d%d" select="document(\'doc%d.xml\')"/>' % (i, i)
     return s
@@ -390,9 +457,9 @@ def import_sheets(c):
     out = {}
     if c["shape"] in ("one", "chain", "two"):
         inner = '<xsl:import href="imp2.xsl"/>' if c["shape"] == "chain" else ""
-        out["imp1.xsl"] = '<xsl:stylesheet version="1.0" %s %s>%s%s</xsl:stylesheet>' % (XSL, NSDECL, inner, keys(1))
+        out["imp1.xsl"] = '<xsl:stylesheet version="1.0" %s %s>%s%s</xsl:stylesheet>' % (XSL, nsdecl_of(c, 1), inner, keys(1))
     if c["shape"] in ("chain", "two"):
-        out["imp2.xsl"] = '<xsl:stylesheet version="1.0" %s %s>%s</xsl:stylesheet>' % (XSL, NSDECL, keys(2))
+        out["imp2.xsl"] = '<xsl:stylesheet version="1.0" %s %s>%s</xsl:stylesheet>' % (XSL, nsdecl_of(c, 2), keys(2))
     return out
 
 
@@ -412,7 +479,7 @@ def pass1_sheet(c):
     for j in range(len(c["docs"])):
         drv += '<xsl:for-each select="$d%d"><xsl:for-each select=".|.//node()|.//@*">%s</xsl:for-each></xsl:for-each>' % (j, apply)
     return ('<xsl:stylesheet version="1.0" %s %s><xsl:output method="text"/>%s%s%s<xsl:template match="/">%s</xsl:template></xsl:stylesheet>'
-            % (XSL, NSDECL, doc_vars(c), DESC_TEMPLATE, t, drv))
+            % (XSL, (NS_COMMON + " " + NS_KEY_DECL) if c.get("ns") else NSDECL, doc_vars(c), DESC_TEMPLATE, t, drv))
 
 
 def bf_expr(c, p):
@@ -466,8 +533,10 @@ def pass2_sheet(c, order):
         imps = '<xsl:import href="imp1.xsl"/><xsl:import href="imp2.xsl"/>'
     keys = "".join(key_elem(d) for d in c["decls"] if d["sheet"] == 0)
     body = "".join(probe_xml(c, pi, c["probes"][pi]) for pi in order)
-    return ('<xsl:stylesheet version="1.0" %s %s>%s<xsl:output method="text"/>%s%s%s<xsl:template match="/">%s</xsl:template></xsl:stylesheet>'
-            % (XSL, NSDECL, imps, keys, doc_vars(c), DESC_TEMPLATE, body))
+    # class 'nsctx', caller 'template': the main module binds p, f, e as the declarations do, the calling template rebinds them
+    tns = (" " + NS_OTHER_DECL) if c.get("ns") and c["ns"]["caller"] == "template" else ""
+    return ('<xsl:stylesheet version="1.0" %s %s>%s<xsl:output method="text"/>%s%s%s<xsl:template match="/"%s>%s</xsl:template></xsl:stylesheet>'
+            % (XSL, nsdecl_of(c, 0), imps, keys, doc_vars(c), DESC_TEMPLATE, tns, body))
 
 
 # ---------------------------------------------------------------------------------------------
@@ -638,8 +707,16 @@ def evaluate(ctx, cases, exe, model):
         ctx.count("class:" + c["cls"])
         ctx.count("docs:%d" % len(c["docs"]))
         ctx.count("imports:" + c["shape"])
-        if any(d["use"] != d["bfuse"] for d in c["decls"]):
+        if any((ns_rename(d["use"]) if c.get("ns") else d["use"]) != d["bfuse"] for d in c["decls"]):
             ctx.count("decl-use:position-or-last")
+        if c.get("ns"):
+            ctx.count("nsctx:caller-%s" % c["ns"]["caller"])
+            for d in c["decls"]:
+                ctx.count("nsctx:bindings-on-%s" % ("xsl:key" if d["nsown"] else "xsl:stylesheet"))
+                if ns_rename(d["use"]) != d["use"]:
+                    ctx.count("nsctx:use-resolves-prefix-of-declaration")
+                if ns_rename(d["match"]) != d["match"]:
+                    ctx.count("nsctx:match-resolves-prefix-of-declaration")
         maps, tables = c["maps"], c["tables"]
         allmap = {}
         for m in maps:
@@ -876,6 +953,18 @@ def run(ctx):
         corr += c2
         orc += o2
         new = [o for o in orc if not (o["known"] and o["known"] in known)]
+    # class 'nsctx' (namespace context of the declaration differs from the one key() is called in): generated from a
+    # stream of its own, seeded here, so that the draws of the classes above are what they were before it existed
+    saved = ctx.rng
+    ctx.rng = random.Random(saved.getrandbits(64))
+    try:
+        ncases = [gen_ns_case(ctx, "n%d" % i) for i in range(150 if not ctx.thorough else 2500)]
+        c3, o3 = evaluate(ctx, ncases, exe, model)
+    finally:
+        ctx.rng = saved
+    corr += c3
+    orc += o3
+    new = [o for o in orc if not (o["known"] and o["known"] in known)]
     hit = sorted({o["known"] for o in orc if o["known"] and o["known"] in known})
     for k in hit:
         ctx.known_finding("%s %s" % (k, known[k]["what"]))
